@@ -29,6 +29,7 @@ type EvalCtx struct {
 	outer  *State
 	prev   *State
 	pre    *State
+	quiet  bool // do not report evaluation errors of use clauses (they are evaluated at several points)
 	mode   int // 1: goal position (skolemise universally quantified conjuncts)
 }
 
@@ -1061,7 +1062,9 @@ func (ev *EvalCtx) useAxiom(u *Clause) {
 	}
 	a, err := ev.evalArgs(e.Args)
 	if err != nil {
-		c.errorf("%s: use %s: %v", u.Where, e.Name, err)
+		if !ev.quiet {
+			c.errorf("%s: use %s: %v", u.Where, e.Name, err)
+		}
 		return
 	}
 	if len(a) != len(ax.Params) {
